@@ -235,8 +235,8 @@ EDITS_COMMON = ("extra-node", "extra-edge", "missing-edge", "weight", "edge-md-v
 def observe(h):
     """public read-only view used for 'hashing never changes the hypergraph'"""
     es = h.get_edges(metadata=True)
-    return (sorted(h.get_nodes(), key=str), sorted(((k, dict(v)) for k, v in es.items()), key=str),
-            sorted(((n, dict(v)) for n, v in h.get_nodes(metadata=True).items()), key=str),
+    return (sorted(h.get_nodes(), key=str), sorted(((k, dict(v)) for k, v in es.items()), key=lambda kv: str(kv[0])),
+            sorted(((n, dict(v)) for n, v in h.get_nodes(metadata=True).items()), key=lambda kv: str(kv[0])),
             dict(h.get_hypergraph_metadata()), h.is_weighted())
 
 
